@@ -24,7 +24,7 @@ META = {
     "assumptions": ["random.choices(pop, weights, k=1) draws proportionally to weights; random.sample(pop, len(pop)) is a uniform "
                     "permutation; random.uniform(0,1) is uniform; np.random.choice(a, p=p) draws a[i] with probability p[i]"],
     "min_obs": {"all": {"rd_choice_calls_checked": 500, "brd_uniform_probes": 200, "brd_squares_calls_checked": 100,
-                        "first_place_tie_permutations": 50, "tiebreak_sample_calls": 80, "freq_tests": 4}},
+                        "first_place_tie_permutations": 50, "tiebreak_sample_calls": 80, "freq_tests": 8}},
     "soft_deadline": {"quick": 200, "thorough": 3000},
 }
 
@@ -328,8 +328,14 @@ def freq_cases(N, seed):
     p2 = P(["A", "B", "C", "D"], [B(["A", "B"], 4), B(["B", "A", "C"], 3), B([["C", "D"]], 2), B(["D", "A"], 1)])
     p3 = P(["A", "B", "C", "D"], [B(["A", "D"], 2), B(["B", "D"], 2), B(["C", "D"], 2), B(["D"], 1)])
     p4 = P(["A", "B", "C", "D", "E"], [B(["A", "B"], 3), B(["B", "A"], 3), B(["C", "A"], 1), B(["D", "A"], 1), B(["E", "B"], 1)])
+    # ballots that exhaust once their candidates are elected (bullet votes / short ballots): the next seat must be drawn
+    # from the weight that is still there
+    p5 = P(["A", "B", "C"], [B(["A"], 5), B(["B", "C"], 1), B(["C", "B"], 1)])
+    p6 = P(["A", "B", "C", "D"], [B(["A", "B"], 4), B(["B", "A"], 3), B(["C", "D"], 2), B(["D"], 1)])
     out = []
     for kind in ("RandomDictator", "BoostedRandomDictator"):
+        out.append({"kind": "freq", "test": kind, "m": 2, "profile": p5, "N": N})
+        out.append({"kind": "freq", "test": kind, "m": 3, "profile": p6, "N": N})
         out.append({"kind": "freq", "test": kind, "m": 1, "profile": p1, "N": N})
         out.append({"kind": "freq", "test": kind, "m": 2, "profile": p2, "N": N})
         out.append({"kind": "freq", "test": kind, "m": 2, "profile": p1, "N": N})
